@@ -27,6 +27,8 @@ unsigned vf_wl_waits, vf_wl_signals, vf_wl_bcasts;
 unsigned vf_t_wl_wait, vf_t_wl_signal, vf_t_wl_bcast;
 const void *vf_wl_which;
 int vf_wl_timedout; /* result of the timed wait (arbitrary) */
+size_t vf_wl_len;   /* abstract length of the wait list */
+size_t vf_wl_woken; /* waiters woken by the last signal/broadcast */
 
 #define VF_WL_GHOST vf_wl_waits, vf_wl_signals, vf_wl_bcasts, vf_t_wl_wait, vf_t_wl_signal, vf_t_wl_bcast, vf_wl_which, vf_wl_timedout
 
@@ -34,7 +36,7 @@ static inline void ABTI_waitlist_wait_and_unlock(ABTI_local **pp_local, ABTI_wai
                                                  ABT_sync_event_type sync_event_type, void *p_sync)
 __CPROVER_requires(vf_lock_held == 1 && vf_lock_which == p_lock)
 __CPROVER_requires(VF_WL_WAIT_PRE)
-__CPROVER_assigns(*pp_local, vf_lock_held, vf_releases, vf_clock, vf_t_release, vf_wl_waits, vf_t_wl_wait, vf_wl_which
+__CPROVER_assigns(*pp_local, vf_lock_held, vf_releases, vf_clock, vf_t_release, vf_wl_waits, vf_t_wl_wait, vf_wl_which, vf_wl_len
 #ifdef VF_WL_WAIT_HAVOC
                   , VF_WL_WAIT_HAVOC
 #endif
@@ -48,7 +50,7 @@ static inline ABT_bool ABTI_waitlist_wait_timedout_and_unlock(ABTI_local **pp_lo
                                                               double target_time, ABT_sync_event_type sync_event_type, void *p_sync)
 __CPROVER_requires(vf_lock_held == 1 && vf_lock_which == p_lock)
 __CPROVER_requires(VF_WL_WAIT_PRE)
-__CPROVER_assigns(*pp_local, vf_lock_held, vf_releases, vf_clock, vf_t_release, vf_wl_waits, vf_t_wl_wait, vf_wl_which, vf_wl_timedout
+__CPROVER_assigns(*pp_local, vf_lock_held, vf_releases, vf_clock, vf_t_release, vf_wl_waits, vf_t_wl_wait, vf_wl_which, vf_wl_timedout, vf_wl_len
 #ifdef VF_WL_WAIT_HAVOC
                   , VF_WL_WAIT_HAVOC
 #endif
@@ -62,14 +64,18 @@ __CPROVER_ensures(VF_WL_WAIT_POST);
 static inline void ABTI_waitlist_signal(ABTI_local *p_local, ABTI_waitlist *p_waitlist)
 __CPROVER_requires(vf_lock_held == 1)
 __CPROVER_requires(VF_WL_SIGNAL_PRE)
-__CPROVER_assigns(vf_clock, vf_wl_signals, vf_t_wl_signal, vf_wl_which)
+__CPROVER_assigns(vf_clock, vf_wl_signals, vf_t_wl_signal, vf_wl_which, vf_wl_len, vf_wl_woken)
+/* wakes exactly the head waiter (none if there is none) */
+__CPROVER_ensures(vf_wl_woken == (__CPROVER_old(vf_wl_len) > 0 ? 1 : 0) && vf_wl_len == __CPROVER_old(vf_wl_len) - vf_wl_woken)
 __CPROVER_ensures(vf_wl_signals == __CPROVER_old(vf_wl_signals) + 1 && vf_wl_which == p_waitlist)
 __CPROVER_ensures(vf_clock == __CPROVER_old(vf_clock) + 1 && vf_t_wl_signal == vf_clock);
 
 static inline void ABTI_waitlist_broadcast(ABTI_local *p_local, ABTI_waitlist *p_waitlist)
 __CPROVER_requires(vf_lock_held == 1)
 __CPROVER_requires(VF_WL_BCAST_PRE)
-__CPROVER_assigns(vf_clock, vf_wl_bcasts, vf_t_wl_bcast, vf_wl_which)
+__CPROVER_assigns(vf_clock, vf_wl_bcasts, vf_t_wl_bcast, vf_wl_which, vf_wl_len, vf_wl_woken)
+/* wakes every current waiter, the list is empty afterwards */
+__CPROVER_ensures(vf_wl_woken == __CPROVER_old(vf_wl_len) && vf_wl_len == 0)
 __CPROVER_ensures(vf_wl_bcasts == __CPROVER_old(vf_wl_bcasts) + 1 && vf_wl_which == p_waitlist)
 __CPROVER_ensures(vf_clock == __CPROVER_old(vf_clock) + 1 && vf_t_wl_bcast == vf_clock);
 #endif
